@@ -308,6 +308,7 @@ def run(chk):
     _alias_rule(chk, prog)
     _order_rule(chk, prog)
     _unary_rule(chk, prog, boot)
+    _spliceform_rule(chk, prog)
 
 
 def _jumppair_rule(chk, prog):
@@ -778,3 +779,31 @@ def _unary_rule(chk, prog, boot):
                               opname, "by the compiler" if a else "in the generic body", ", ".join(sorted(a or b)),
                               "the generic body does not use the same instruction" if a else "the compiler does not",
                               ", ".join(sorted(b or a)) or "identity op x"))
+
+
+def _spliceform_rule(chk, prog):
+    """The compiler turns some calls into jumps without calling anything: `(= nil x)` / `(not= nil x)` in an if / while
+    condition, recognised by the shape of the form (three elements, a tagged function value in front).  A form element
+    `;xs` is one element of the tuple but any number of arguments of the call, so a shape match that does not look for
+    splices recognises calls it must not touch."""
+    rule = "C15-SPLICEFORM"
+    chk.rule(rule, "a compiler fast path that recognises a call by the length of its form leaves forms with a spliced operand alone")
+    n = 0
+    for fn in prog.tus["specials.c"].funcs.values():
+        lens = [x for x in fn.nodes if x.k == "bin" and x.op in ("==", "!=") and any("janet_tuple_length" in y.macro_names() for y in x.walk())
+                and any(strip_casts(k).v is not None for k in x.kids)]
+        tags = [x for x in fn.nodes if x.k == "mem" and x.field == "flags" and x.rec == "JanetFuncDef"]
+        caps = [x for x in fn.nodes if x.k == "asg" and x.op == "=" and x.kids[0].k == "un" and x.kids[0].op == "*" and strip_casts(x.kids[1]).k == "sub"]
+        if not (lens and tags and caps):
+            continue
+        n += 1
+        chk.instance(rule)
+        chk.analysed(fn)
+        if any("splice" in x.text() for x in fn.nodes if x.k in ("str", "call")):
+            chk.ok(rule, "%s: matches a call form by length and excludes spliced operands" % fn.name)
+        else:
+            chk.violation(rule, "specials.c", fn.name, "shape-match", lens[0].loc,
+                          "%s recognises a call by `%s` and the function in front, and captures an operand, without looking for a `splice` "
+                          "operand: (if (<=> nil ;[]) ...) written with the function value is compiled as a nil test of the splice form "
+                          "itself, while the same call through the function gives the result for the spliced arguments" % (fn.name, lens[0].text()[:40]))
+    chk.floor(rule, 1, n)
